@@ -144,12 +144,13 @@ func (r *runner) at(p *proc, point string, kv []interface{}) {
 			return
 		}
 		p.depth++
-		if p.depth == 1 {
-			p.storeCalls++
-			if p.gated && p.storeCalls > 1 {
-				p.arrived <- "store"
-				<-p.gate
-			}
+		p.storeCalls++
+		// a gate before every store read but the first one of the request: between two top-level calls, and also
+		// inside a store read that is itself made of several (the file store's Get reads the metadata, then the content:
+		// the known torn read; the memory store's Get is one lookup and must stay one)
+		if p.gated && p.storeCalls > 1 {
+			p.arrived <- "store"
+			<-p.gate
 		}
 		return
 	}
